@@ -417,6 +417,7 @@ type Reply struct {
 	DstIP  uint32
 	Opts   map[byte][]byte
 	Order  []byte // option codes in wire order
+	Raw    []byte // the DHCP message as written (the UDP payload)
 	Bad    string // malformed reply description
 }
 
@@ -438,6 +439,11 @@ func DecodeReply(fr []byte) (*Reply, bool) {
 		CHAddr: append([]byte{}, d[28:34]...), Opts: map[byte][]byte{}}
 	r.BCast = bytes.Equal(fr[0:6], []byte{0xff, 0xff, 0xff, 0xff, 0xff, 0xff}) && binary.BigEndian.Uint32(fr[14+16:]) == 0xffffffff
 	r.DstMAC, r.DstIP = append([]byte{}, fr[0:6]...), binary.BigEndian.Uint32(fr[14+16:])
+	if ul := int(binary.BigEndian.Uint16(u[4:])); ul >= 8 && ul <= len(u) {
+		r.Raw = append([]byte{}, u[8:ul]...)
+	} else {
+		r.Raw = append([]byte{}, d...)
+	}
 	if !bytes.Equal(d[236:240], []byte{99, 130, 83, 99}) {
 		r.Bad = "bad cookie"
 	}
